@@ -418,8 +418,9 @@ class NetSim:
             limit.value = v
             limit.sent = v
 
-    def api(self, ep, name, fn):
-        """Run one public API call on an endpoint, then the sans-IO contract loop."""
+    def api(self, ep, name, fn, pump=True):
+        """Run one public API call on an endpoint, then the sans-IO contract loop (pump=False: the caller
+        has not got round to transmitting yet - the next call's loop covers this one too)."""
         ep.api_calls += 1
         for m in self.monitors:
             m.before_api(self, ep, name)
@@ -431,7 +432,8 @@ class NetSim:
             for m in self.monitors:
                 m.on_exception(self, ep, name, e)
             raise
-        self.pump(ep, name)
+        if pump:
+            self.pump(ep, name)
 
     def pump(self, ep, cause):
         conn = ep.conn
@@ -654,7 +656,7 @@ class NetSim:
         self.inflight.append(d)
         return d
 
-    def deliver(self, d, src_addr=None):
+    def deliver(self, d, src_addr=None, pump=True):
         ep = self.ep[d.dst]
         addr = src_addr or d.src_addr
         if d.arrival > self.now:
@@ -668,7 +670,7 @@ class NetSim:
         self.log("deliver", (d.id, d.dst, len(d.data), addr != d.src_addr))
         for m in self.monitors:
             m.on_deliver(self, ep, d, addr)
-        self.api(ep, "receive_datagram", lambda: ep.conn.receive_datagram(d.data, addr, now=self.now))
+        self.api(ep, "receive_datagram", lambda: ep.conn.receive_datagram(d.data, addr, now=self.now), pump=pump)
 
     def fire_timer(self, ep, at):
         if at > self.now:
@@ -773,6 +775,11 @@ class NetSim:
                     if "delay" in self.dev:
                         menu.append(("delay", first, 0.030))
                         menu.append(("delay", first, 1.5))
+                    if "hold" in self.dev and any(d2 is not first and d2.dst == first.dst
+                                                  and d2.arrival <= first.arrival + 0.001 for d2 in self.inflight):
+                        # back-to-back arrival: the caller takes this datagram and the next one before it
+                        # transmits (datagrams_to_send / events are served once, after the second)
+                        menu.append(("hold", first))
                     if "rebind" in self.dev and first.src == "c" and self.client_addr in (C_ADDR, C_ADDR2):
                         menu.append(("rebind", first))
                     if "spoof" in self.dev and first.src == "c" and first.kind == "genuine":
@@ -800,6 +807,9 @@ class NetSim:
             if k == "deliver":
                 self.inflight.remove(ev[1])
                 self.deliver(ev[1])
+            elif k == "hold":
+                self.inflight.remove(ev[1])
+                self.deliver(ev[1], pump=False)
             elif k == "drop":
                 self.inflight.remove(ev[1])
                 if ev[1].arrival > self.now:
